@@ -1,6 +1,6 @@
 // Command rewriteimports rewrites, in the non-test Go files of the given
-// directories, the import specs "os", "path/filepath" and "crypto/rand" to the simulated
-// mirrors. Nothing else in the files is touched.
+// directories, the import specs "os", "path/filepath", "crypto/rand" and "sync" to the simulated
+// mirrors, and "sync" alone in the other packages of the library. Nothing else in the files is touched.
 package main
 
 import (
@@ -21,11 +21,39 @@ var repl = map[string][2]string{
 	"crypto/rand":   {"rand", "github.com/bartventer/httpcache/verifsim/simrand"},
 }
 
+// syncRepl: in every package of the library, sync's Mutex and RWMutex become cooperative (simsync): a lock the
+// library holds while it is parked at a seam must not block another goroutine inside the runtime.
+var syncRepl = map[string][2]string{
+	"sync": {"sync", "github.com/bartventer/httpcache/verifsim/simsync"},
+}
+
+var syncDirs = []string{".", "internal", "store", "store/memcache", "store/fscache", "store/expapi", "store/driver"}
+
 func main() {
 	n := 0
+	repl["sync"] = syncRepl["sync"]
+	full := map[string]bool{}
 	for _, dir := range os.Args[1:] {
+		full[filepath.Clean(dir)] = true
+		n += rewriteDir(dir, repl, true)
+	}
+	for _, dir := range syncDirs {
+		if !full[filepath.Clean(dir)] {
+			n += rewriteDir(dir, syncRepl, false)
+		}
+	}
+	n += clockSeam("internal/clock.go")
+	fmt.Printf("rewriteimports: %d files rewritten\n", n)
+}
+
+func rewriteDir(dir string, repl map[string][2]string, must bool) int {
+	n := 0
+	{
 		ents, err := os.ReadDir(dir)
 		if err != nil {
+			if !must {
+				return 0
+			}
 			fmt.Fprintln(os.Stderr, err)
 			os.Exit(2)
 		}
@@ -70,8 +98,7 @@ func main() {
 			n++
 		}
 	}
-	n += clockSeam("internal/clock.go")
-	fmt.Printf("rewriteimports: %d files rewritten\n", n)
+	return n
 }
 
 // clockSeam makes the library's internal wall clock read the simulated one (which can be stepped). The two
